@@ -1,0 +1,26 @@
+//go:build verif
+
+/*
+AnyType Library for Go
+Verification hook (build tag verif): read-only view of the internal storage of lists and objects
+*/
+
+package anytype
+
+import "reflect"
+
+/*
+VerifStorage exposes the address, length and capacity of the slice backing the list.
+It is compiled only with the verif build tag and reads nothing but the slice header.
+*/
+func (ego *list) VerifStorage() (base uintptr, length int, capacity int) {
+	return reflect.ValueOf(ego.val).Pointer(), len(ego.val), cap(ego.val)
+}
+
+/*
+VerifStorage exposes the identity of the map backing the object and its size.
+It is compiled only with the verif build tag.
+*/
+func (ego *object) VerifStorage() (base uintptr, length int) {
+	return reflect.ValueOf(ego.val).Pointer(), len(ego.val)
+}
